@@ -673,6 +673,52 @@ def r10i(rep, F):
         rep.add('R10i', label(sp), 'pivot-skipped-by-index', ok, sp.where(pushes[0]), why)
 
 
+class ConfigBeforeRebuild(paths.Client):
+    """auto = a rebuild has run on this path; a configuration call after it is recorded"""
+    track = 'none'
+
+    def __init__(self):
+        self.rebuilds = 0
+        self.configs = 0
+        self.bad = []
+
+    def init(self, fn):
+        return False
+
+    def on_node(self, fn, node, auto, ctx):
+        c = node.get('callee') or ''
+        if c.endswith('::rebuildDataStructure'):
+            self.rebuilds += 1
+            return True
+        if c.endswith('::setDistanceFunction') or (node['k'] in ('BinaryOperator', 'CXXOperatorCallExpr') and
+                                                   (node.get('op') == '=' or node.get('oop') == '=') and node['ch'] and
+                                                   'distFun_' in fn.fp(node['ch'][0])):
+            self.configs += 1
+            if auto:
+                self.bad.append((node['id'], ctx.path()))
+        return auto
+
+
+def r10j(rep, F):
+    rep.rule('R10j', 'a change of metric reaches every holder of the distance function before the tree is rebuilt: in '
+                     'setDistanceFunction of both GNAT variants every call / store that installs the new function (the base '
+                     'class member, the pivot selector) precedes rebuildDataStructure() on every path -- a rebuild that still '
+                     'selects pivots or fills the range tables with the old metric leaves envelopes that the new metric\'s '
+                     'queries prune with')
+    n = 0
+    for cls, targ in VARIANTS:
+        fn = pick(F, cls + '::setDistanceFunction', targ)[0]
+        cl = ConfigBeforeRebuild()
+        paths.run_function(fn, cl, F)
+        if not cl.rebuilds or cl.configs < 2:
+            raise AnalysisBroken('R10j: %s: rebuild / configuration calls not recognised' % fn.name)
+        n += 1
+        rep.add('R10j', label(fn), 'metric-installed-before-rebuild', not cl.bad, fn.where(cl.bad[0][0]) if cl.bad else fn.loc,
+                'a holder of the distance function is updated only after rebuildDataStructure() has already rebuilt the tree with the '
+                'old one' if cl.bad else 'all %d holders are updated before the rebuild' % cl.configs, cl.bad[0][1] if cl.bad else None)
+    rep.require_count('R10j', 'setDistanceFunction overrides', n, 2)
+
+
 def run(rep):
     F = facts.load_units(INST)
     rep.units.update(INST)
@@ -686,3 +732,4 @@ def run(rep):
     r10e(rep, F)
     r10f(rep, F)
     r10g(rep, F)
+    r10j(rep, F)
